@@ -62,6 +62,8 @@ mod macros;
 
 pub mod css;
 pub mod render;
+#[cfg(html2text_verif)]
+pub mod verif_hooks;
 
 use render::text_renderer::{
     RenderLine, RenderOptions, RichAnnotation, SubRenderer, TaggedLine, TextRenderer,
@@ -502,6 +504,10 @@ impl RenderTable {
             for cell in row.cells_mut() {
                 let nextpos = pos + cell.colspan.max(1);
                 let next_mapped_pos = *colmap.get(&nextpos).unwrap();
+                #[cfg(html2text_verif)]
+                if cell.colspan != next_mapped_pos - mapped_pos {
+                    verif_tick!(ProbeColspanRemap);
+                }
                 cell.colspan = next_mapped_pos - mapped_pos;
                 pos = nextpos;
                 mapped_pos = next_mapped_pos;
@@ -1233,6 +1239,7 @@ where
     loop {
         // Get the next child node to process
         while let Some(h) = last.to_process.next() {
+            verif_tick!(TreeNode);
             if let Some(f) = &last.prefn {
                 f(context, &h)?;
             }
@@ -2235,6 +2242,10 @@ fn render_table_tree<T: Write, D: TextDecorator>(
     let width = renderer.width();
 
     let vert_row = renderer.options.raw || (min_size > width || width == 0);
+    #[cfg(html2text_verif)]
+    if vert_row {
+        verif_tick!(ProbeVertTable);
+    }
 
     let mut col_widths: Vec<usize> = if !vert_row {
         col_sizes
@@ -2264,6 +2275,7 @@ fn render_table_tree<T: Write, D: TextDecorator>(
         let num_cols = col_widths.len();
         if num_cols > 0 {
             loop {
+                verif_tick!(TableShrink);
                 let cur_width = col_widths.iter().sum::<usize>() + num_cols - 1;
                 if cur_width <= width {
                     break;
